@@ -107,6 +107,21 @@ fn run(args: &Args) {
                     let r = catch_unwind(AssertUnwindSafe(|| node.new_channel(dbid, &peer, &node).is_ok()));
                     (format!("NewChannel {}", dbid), json!(["new_channel", dbid]), r.map_err(|_| ()))
                 }
+                4..=6 if rng.chance(1, 4) => {
+                    // a setup that policy refuses (contest delay below the minimum), whatever the slot is:
+                    // for the model just a refused request
+                    let mut setup = make_test_channel_setup();
+                    setup.funding_outpoint.vout = dbid as u32;
+                    if rng.chance(1, 2) {
+                        setup.holder_selected_contest_delay = 2;
+                    } else {
+                        setup.counterparty_selected_contest_delay = 3000;
+                    }
+                    let r = catch_unwind(AssertUnwindSafe(|| {
+                        node.setup_channel(cid.clone(), None, setup, &DerivationPath::master()).is_ok()
+                    }));
+                    (format!("ChannelRequest {}", dbid), json!(["setup_channel_refused_by_policy", dbid]), r.map_err(|_| ()))
+                }
                 4..=6 => {
                     let mut setup = make_test_channel_setup();
                     setup.funding_outpoint.vout = dbid as u32;
